@@ -9,6 +9,7 @@ Each statement has a seeded-change / old-code witness showing it is not vacuous.
 import CaddyModel.C18.MapH
 import CaddyModel.C18.Headers
 import CaddyModel.C18.RwMods
+import CaddyModel.C18.HostGlue
 
 namespace CaddyModel.C18
 
@@ -287,5 +288,53 @@ theorem rewrite_rescanning_the_query_scans_request_text :
 set_option maxRecDepth 100000 in
 example : rwmApply false (fun u => expandAll (rwmEnv [] u)) ⟨str "/A", str ".txt", [], [], 0, none, []⟩ ⟨str "/a/{x}.txt", [], []⟩
     = ⟨str "/{x}", str "/%7Bx%7D", []⟩ := by decide
+
+/-! ### provision-time and request-time expansion of the same field: the host matcher under automatic HTTPS -/
+
+/-- **the request-time matcher expands the CONFIGURED pattern.** After `automaticHTTPSPhase1` looked at the
+    patterns (and provisioning did not fail), what each request is matched against is one expansion of the
+    pattern as it was configured; the name phase 1 resolved it to plays no part. -/
+theorem host_request_match_expands_the_configured_pattern (R : Bytes → Bytes) (c : HostCase) (p1 p2 : Bytes) :
+    hostServeR false R c p1 p2 =
+      match hostProvisionName c p1, hostProvisionName c p2 with
+      | some _, some _ => some (hostMatchOne R p1 c.host, hostMatchOne R p2 c.host)
+      | _, _ => none := by
+  unfold hostServeR hostLive
+  cases hostProvisionName c p1 <;> cases hostProvisionName c p2 <;> simp
+
+/-- … so the request's replacer is only ever given the configured patterns -/
+theorem host_matcher_scans_only_configured_patterns (R : Bytes → Bytes) (c : HostCase) (p1 p2 : Bytes) :
+    hostServeR false R c p1 p2 = hostServeR false (onlyTemplates [p1, p2] R) c p1 p2 := by
+  rw [host_request_match_expands_the_configured_pattern, host_request_match_expands_the_configured_pattern]
+  unfold hostMatchOne
+  rw [onlyTemplates_mem (ts := [p1, p2]) (t := p1) (by simp), onlyTemplates_mem (ts := [p1, p2]) (t := p2) (by simp)]
+
+/-- the seeded change seeded/C18-autohttps-writes-expanded-host-back — phase 1 writes the resolved name back
+    into the live matcher — composes two single passes into a double one: with `SITE={http.request.header.X-Tenant}`
+    the pattern `{env.VERIF_C18_SITE}` matches whatever Host the client names in `X-Tenant`, and the escaped
+    pattern `\{http.request.header.X-Tenant\}` (the literal text) becomes a live placeholder. -/
+def exHostCase : HostCase :=
+  ⟨str "{http.request.header.X-Tenant}", [], [], str "attacker.example", str "attacker.example"⟩
+
+theorem host_matcher_writeback_reexpands :
+    hostServe false exHostCase (str "{env.VERIF_C18_SITE}") (str "\\{http.request.header.X-Tenant\\}") = some (false, false) ∧
+    hostServe true exHostCase (str "{env.VERIF_C18_SITE}") (str "\\{http.request.header.X-Tenant\\}") = some (true, true) ∧
+    hostServeR true (expandAll (hostReqEnv exHostCase)) exHostCase (str "{env.VERIF_C18_SITE}") (str "plain.example") ≠
+      hostServeR true (onlyTemplates [str "{env.VERIF_C18_SITE}", str "plain.example"] (expandAll (hostReqEnv exHostCase)))
+        exHostCase (str "{env.VERIF_C18_SITE}") (str "plain.example") := by
+  set_option maxRecDepth 100000 in decide
+
+/-- why it matters in general: single passes do not compose — expanding the OUTPUT of an expansion is not
+    the expansion (any field that is expanded when it is provisioned and again when it is used must keep
+    its configured text) -/
+theorem expansion_of_an_expansion_is_not_the_expansion :
+    ∃ (env : Env) (t : Bytes), expandAll env (expandKnown env t) ≠ expandAll env t :=
+  ⟨hostReqEnv exHostCase, str "{env.VERIF_C18_SITE}", by set_option maxRecDepth 100000 in decide⟩
+
+-- non-vacuity: an ordinary value matches (case-insensitively), and a request placeholder in the CONFIGURED
+-- pattern is live, as documented
+set_option maxRecDepth 100000 in
+example : hostServe false ⟨str "site.example", [], [], str "SITE.example", str "SITE.example"⟩
+    (str "{env.VERIF_C18_SITE}") (str "{http.request.header.X-Tenant}") = some (true, true) := by decide
 
 end CaddyModel.C18
